@@ -225,7 +225,7 @@ class RefTree:
 class EvalInfo:
     """side information about one evaluation (what the verdict may rely on)."""
     __slots__ = ('order_dep', 'doc_upward', 'fp_from_attr_ns', 'reverse', 'positional', 'nonelem_ctx', 'max_inter',
-                 'preceding_from_doc_child', 'ns_positional')
+                 'preceding_from_doc_child', 'ns_positional', 'paren_reverse_bite')
 
     def __init__(self):
         self.order_dep = False        # a positional predicate saw >= 2 attributes / namespace nodes of one element
@@ -236,6 +236,7 @@ class EvalInfo:
         self.nonelem_ctx = False      # some step was evaluated from a non-element, non-document context node
         self.max_inter = 0
         self.preceding_from_doc_child = False   # preceding:: evaluated from a child of the document node
+        self.paren_reverse_bite = False  # (reverse-axis step)[p1][positional]: >= 2 nodes reached the later positional predicate
         self.ns_positional = False    # a positional predicate numbered a list of >= 2 nodes containing a namespace node
 
 
@@ -384,6 +385,13 @@ class Evaluator:
             return self.steps(nodes, steps, info, False)
         if k == 'fpath':
             nodes = self.expr(e[1], ctx, info)
+            inner = e[1]
+            if len(e[2]) >= 2 and inner[0] == 'path' and inner[1] == 0 and len(inner[2]) == 1 and inner[2][0][1] in REVERSE:
+                part = nodes
+                for i, p in enumerate(e[2]):
+                    if i > 0 and self.is_positional(p) and len(part) >= 2:
+                        info.paren_reverse_bite = True
+                    part = self.filter(part, [p], EvalInfo())
             nodes = self.filter(nodes, e[2], info)      # document order positions
             return self.steps(nodes, e[3], info, True)
         raise ValueError(e)
